@@ -657,6 +657,12 @@ class Body:
             bl = self.blocks[bb]
             last = dict(last)
             for i, st in enumerate(bl["stmts"]):
+                if events and st["k"] == "assign" and st["place"]["p"] == ["deref"]:
+                    # a store through a reference (`*slot = v`, e.g. the target of `data[0] = n` after index_mut)
+                    try:
+                        trace = trace + (("store", bb, freeze(resolve({"copy": {"l": st["place"]["l"], "p": []}}, last)), freeze(resolve_rv(st["rv"], last, 0))),)
+                    except Exception:
+                        pass
                 if st["k"] == "assign" and not st["place"]["p"] and (st["place"]["l"] in multi or st["place"]["l"] == 0):
                     last[st["place"]["l"]] = ("stmt", bb, i)
             t = bl["term"]
